@@ -22,8 +22,12 @@ const POOL: [(&str, &str); 8] = [("cookie", "k=NEW1"), ("cookie", "k=NEW2"), ("a
 fn chain_cfgs() -> Vec<Arc<ChainCfg>> {
     let locs = vec![Loc::one("/q"), Loc::one("http://b.test/q"), Loc::one("https://a.test/s")];
     let mut out = Vec::new();
-    for (m, cl) in [("GET", false), ("POST", true)] {
+    for (m, cl) in [("GET", false), ("POST", true), ("HEAD", false)] {
         let mut r = ReqCfg::new(m, "1.1", "http://a.test/p").orig("authorization", "S3CRET").orig("cookie", "k=ORIG").orig("x-keep", "1").orig("accept", "*/*");
+        if m == "HEAD" {
+            // repeated credential fields
+            r = r.orig("cookie", "k2=ORIG").orig("authorization", "S3CRET-2");
+        }
         let mut body = vec![];
         if cl {
             r = r.orig("content-length", "3");
@@ -199,6 +203,9 @@ pub fn run(tier: Tier) -> Report {
                     }
                     if si % 17 == 1 && qi == 11 {
                         rep.sample(json!({"original": format!("{} {}", cfg.req.method, cfg.req.uri), "redirect_depth": st.hop, "current_uri": crate::refmodel::uri3986::to_string(&st.cur), "added": added.iter().map(|(k, v)| format!("{}: {}", k, show(v))).collect::<Vec<_>>()}));
+                    }
+                    if fail.is_none() && (si * 131 + qi) % 499 == 0 {
+                        crate::engine::validate_case(&mut rep, replay, json!({"chain_cfg": ci, "chain": tr.iter().map(|a| crate::chain::act_json(a, cfg)).collect::<Vec<_>>(), "added": added.iter().map(|(k, v)| json!([k, hex(v)])).collect::<Vec<_>>()}));
                     }
                     if let Some((key, what)) = fail {
                         rep.violation(Violation {
